@@ -305,35 +305,34 @@ func (d *Decoder) unmarshal(val reflect.Value, tagType byte) error {
 		if aryLen < 0 {
 			return errors.New("long array len less than 0")
 		}
-		vt := val.Type() // receiver must be []int or []int64
+		vt := val.Type() // receiver must be []int64 or []uint64
 		if vt.Kind() == reflect.Interface {
 			vt = reflect.TypeOf([]int64{}) // pass
-		} else if vt.Kind() != reflect.Slice {
+		} else if vt.Kind() == reflect.Array && vt.Len() != int(aryLen) {
+			return errors.New("cannot parse TagLongArray to " + vt.String() + ", length not match")
+		} else if k := vt.Kind(); k != reflect.Slice && k != reflect.Array {
 			return errors.New("cannot parse TagLongArray to " + vt.String() + ", it must be a slice")
-		}
-		switch vt.Elem().Kind() {
-		case reflect.Int64:
-			buf := reflect.MakeSlice(vt, int(aryLen), int(aryLen))
-			for i := 0; i < int(aryLen); i++ {
-				value, err := d.readInt64()
-				if err != nil {
-					return err
-				}
-				buf.Index(i).SetInt(value)
-			}
-			val.Set(buf)
-		case reflect.Uint64:
-			buf := reflect.MakeSlice(vt, int(aryLen), int(aryLen))
-			for i := 0; i < int(aryLen); i++ {
-				value, err := d.readInt64()
-				if err != nil {
-					return err
-				}
-				buf.Index(i).SetUint(uint64(value))
-			}
-			val.Set(buf)
-		default:
+		} else if tk := vt.Elem().Kind(); tk != reflect.Int64 && tk != reflect.Uint64 {
 			return errors.New("cannot parse TagLongArray to " + vt.String())
+		}
+
+		buf := val
+		if vt.Kind() == reflect.Slice {
+			buf = reflect.MakeSlice(vt, int(aryLen), int(aryLen))
+		}
+		for i := 0; i < int(aryLen); i++ {
+			value, err := d.readInt64()
+			if err != nil {
+				return err
+			}
+			if elem := buf.Index(i); elem.Kind() == reflect.Uint64 {
+				elem.SetUint(uint64(value))
+			} else {
+				elem.SetInt(value)
+			}
+		}
+		if vt.Kind() == reflect.Slice {
+			val.Set(buf)
 		}
 
 	case TagList:
